@@ -379,7 +379,7 @@ class OpAction:
 
 class LineWorld:
     _canon_skip = ('spec', 'facts', 'last_tie_size', 'budget', 'mode', 'ops', 'horizon',
-                   'op_limits', 'positions', '_saved', '_gsaved', 'script', 'dispatched')
+                   'op_limits', 'positions', '_saved', '_gsaved', 'script', 'dispatched', '_prev_hub')
 
     def __init__(self, spec, monitors=(), mode='e1'):
         self.spec = spec
@@ -425,6 +425,7 @@ class LineWorld:
         d = dict(self.__dict__)
         d.pop('_saved', None)
         d.pop('_gsaved', None)
+        d.pop('_prev_hub', None)
         return d
 
     # ------------------------------------------------------------------ globals
@@ -435,13 +436,15 @@ class LineWorld:
         Asset._id_counter = self.id_counter
         System._instance = self.system
         self._gsaved = globalstate.enter(self.gvals)
+        self._prev_hub = _CURRENT_HUB[0]
         _CURRENT_HUB[0] = self.hub
 
     def _leave(self):
         if self.mode == 'e2':
             self.id_counter = Asset._id_counter
             return
-        _CURRENT_HUB[0] = None
+        _CURRENT_HUB[0] = self._prev_hub
+        self._prev_hub = None
         self.id_counter = Asset._id_counter
         Asset._id_counter, System._instance = self._saved
         self._saved = None
@@ -690,6 +693,8 @@ class LineWorld:
                 if self.mode == 'e1':
                     env._terminated = False       # what Environment.run does first (the horizon TERMINATE is queued already)
                 self.facts.append('run_resumed')
+                for m in self.monitors:
+                    m.resumed(self)
                 return
             if label[0] == 'xop':
                 if not self.between:
@@ -712,6 +717,8 @@ class LineWorld:
                 head = self._head_for_ops()
                 if head is None or not head.time > env.now:
                     raise HarnessError('split not enabled')
+                for m in self.monitors:
+                    m.presplit(self)
                 t = (env.now + head.time) / 2 if label[1] == 'mid' else env.now
                 if self.mode == 'e1':
                     env.schedule_event(t, -1, env._terminate, EventType.TERMINATE)
@@ -876,6 +883,14 @@ class Monitor:
 
     def created(self, w, d, t0):
         '''An asset described by spec entry d was created at time t0 while running.'''
+        pass
+
+    def resumed(self, w):
+        '''A new run has just been started after a split.'''
+        pass
+
+    def presplit(self, w):
+        '''The run is about to be split here (nothing has been touched yet).'''
         pass
 
 
